@@ -433,53 +433,117 @@ func runScript(r *vlib.Run, sp scriptSpec, jm *jitterMon) {
 	r.Count("udp_unanswered", int(udpUnanswered))
 	r.Count("udp_drops_server_counted", int(udpServerDrops))
 	r.Count("udp_loss_kernel_counted", int(kernelLoss))
+
+	// A third legal kind of UDP shedding has no counter: a datagram that found a
+	// slot in the ingress ready queue while every worker was busy, and waited
+	// there for its WHOLE query budget, is discarded at dequeue (the
+	// expired-on-entry return of Server.ServeRawReplay / serveWire) — shed at
+	// ingress under overload, which the statement exempts. It is recognised
+	// narrowly and only to explain a surplus the counters leave:
+	//   (a) never dispatched: its name is asked by no other query of the script
+	//       (no cache / dedup effect possible) and never reached any upstream
+	//       server — no lookup for it was ever started;
+	//   (b) the ingress was saturated for the whole query timeout from its
+	//       arrival: the script runs a tiny bounded pool (IngressWorkers and
+	//       IngressQueue ≤ 4), the engine's own counter shows the ready queue
+	//       overflowed (udp_overflow_served), and at least IngressWorkers
+	//       queries that arrived within 10 ms of it were answered by the query
+	//       timeout itself (SERVFAIL at ≥ querytimeout − 0.1 s) — every worker
+	//       was pinned until then;
+	//   (c) at most IngressQueue such queries per 10 ms arrival cluster (only a
+	//       queue-slot holder can wait; the rest get overflow goroutines).
+	// Anything else unanswered beyond the counters is a lost reply.
+	surplus := udpUnanswered - (udpServerDrops + kernelLoss)
+	var expiredInQueue int64
+	var expiredWitness, never, dispatched []string
+	if surplus > 0 {
+		seenUp := map[string]bool{}
+		for _, p := range e.t.u.Log.All() {
+			seenUp[p.QNameL] = true
+		}
+		nameUses := map[string]int{}
+		type arrival struct {
+			at       time.Time
+			deadline bool // answered by the query timeout itself
+		}
+		var arrivals []arrival
+		for _, q := range all {
+			if q.Junk != "" {
+				continue
+			}
+			nameUses[strings.ToLower(q.Name)]++
+			if q.Tr != "udp" || q.Closer {
+				continue
+			}
+			sent, _, reps, _ := q.snapshot()
+			if sent.IsZero() {
+				continue
+			}
+			dl := len(reps) == 1 && reps[0].rcode == dns.RcodeServerFailure && reps[0].at.Sub(sent) >= queryTimeout-100*time.Millisecond
+			arrivals = append(arrivals, arrival{sent, dl})
+		}
+		tinyPool := tw.IngressWorkers >= 1 && tw.IngressWorkers <= 4 && tw.IngressQueue >= 1 && tw.IngressQueue <= 4
+		saturated := tinyPool && delta("udp_overflow_served") > 0
+		const cluster = 10 * time.Millisecond
+		var classifiedAt []time.Time
+		for _, q := range all {
+			if q.Tr != "udp" || q.Closer || q.Junk != "" {
+				continue
+			}
+			sent, sendErr, reps, _ := q.snapshot()
+			if sent.IsZero() || sendErr != "" || len(reps) > 0 {
+				continue
+			}
+			name := strings.ToLower(q.Name)
+			d := fmt.Sprintf("%s %s (%s, sent at +%.0f ms)", q.Name, dns.TypeToString[q.Qtype], q.Pattern, ms(sent.Sub(s.t0)))
+			if seenUp[name] {
+				dispatched = append(dispatched, d)
+				continue
+			}
+			never = append(never, d)
+			if !saturated || nameUses[name] != 1 || expiredInQueue >= surplus {
+				continue
+			}
+			mates, inCluster := 0, 0
+			for _, a := range arrivals {
+				if a.deadline && a.at.Sub(sent).Abs() <= cluster {
+					mates++
+				}
+			}
+			for _, t := range classifiedAt {
+				if t.Sub(sent).Abs() <= cluster {
+					inCluster++
+				}
+			}
+			if mates >= tw.IngressWorkers && inCluster < tw.IngressQueue {
+				expiredInQueue++
+				classifiedAt = append(classifiedAt, sent)
+				expiredWitness = append(expiredWitness, fmt.Sprintf("%s — %d arrival-mates answered at the query timeout", d, mates))
+			}
+		}
+	}
+	if expiredInQueue > 0 {
+		r.Count("udp_expired_in_ingress_queue", int(expiredInQueue))
+		r.Note("udp_expired_in_ingress_queue/"+sp.Name, head(expiredWitness, 4))
+	}
 	if udpUnanswered > 0 {
-		if udpUnanswered <= udpServerDrops+kernelLoss {
+		switch {
+		case surplus-expiredInQueue <= 0:
 			r.Count("drops_accounted", int(udpUnanswered))
-			r.Count("udp_shed_accounted", int(udpUnanswered))
-			if udpServerDrops > 0 && kernelLoss == 0 && udpUnanswered+udpShedPossible >= udpServerDrops {
+			r.Count("udp_shed_accounted", int(udpUnanswered-expiredInQueue))
+			if udpServerDrops > 0 && kernelLoss == 0 && expiredInQueue == 0 && udpUnanswered+udpShedPossible >= udpServerDrops {
 				// both directions: every counted drop is a query we saw go
 				// unanswered (or a closer/junk datagram nobody waited for)
 				r.Count("udp_shed_scripts_exact", 1)
 			}
-		} else if stalled {
+		case stalled:
 			s.inconclusive = true
 			r.Count("missing_replies_on_stalled_machine", int(udpUnanswered))
-		} else {
-			// Which kind of loss? A query whose name never appeared at any
-			// upstream server was never handed to resolution at all: it was
-			// read and admitted, then discarded before dispatch without a
-			// reply and without a drop counter. A query that WAS being
-			// resolved and still got nothing lost its reply on the way out.
-			seenUp := map[string]bool{}
-			for _, p := range e.t.u.Log.All() {
-				seenUp[p.QNameL] = true
-			}
-			var never, dispatched []string
-			for _, q := range all {
-				if q.Tr != "udp" || q.Closer || q.Junk != "" {
-					continue
-				}
-				sent, sendErr, reps, _ := q.snapshot()
-				if sent.IsZero() || sendErr != "" || len(reps) > 0 {
-					continue
-				}
-				d := fmt.Sprintf("%s %s (%s, sent at +%.0f ms)", q.Name, dns.TypeToString[q.Qtype], q.Pattern, ms(sent.Sub(s.t0)))
-				if seenUp[strings.ToLower(q.Name)] {
-					dispatched = append(dispatched, d)
-				} else {
-					never = append(never, d)
-				}
-			}
-			detail := map[string]any{"server_counters_delta": deltas(ctr0, ctr1), "kernel_before": k0, "kernel_after": k1,
-				"unanswered_never_seen_upstream": head(never, 16), "unanswered_seen_upstream": head(dispatched, 16)}
-			if len(dispatched) == 0 {
-				s.violation("no-reply/udp-never-dispatched-uncounted", fmt.Sprintf("%d admitted UDP queries got no reply, none of them was ever handed to resolution (no upstream packet for their names), and the server counted only %d shed/dropped datagrams (kernel: %d): read and queued, then discarded silently — neither SERVFAIL nor a drop counter",
-					udpUnanswered, udpServerDrops, kernelLoss), nil, nil, detail)
-			} else {
-				s.violation("no-reply/udp-unaccounted", fmt.Sprintf("%d admitted UDP queries got no reply (%d of them were being resolved upstream) but the server counted only %d shed/dropped datagrams and the kernel %d lost ones",
-					udpUnanswered, len(dispatched), udpServerDrops, kernelLoss), nil, nil, detail)
-			}
+		default:
+			s.violation("no-reply/udp-unaccounted", fmt.Sprintf("%d admitted UDP queries got no reply (%d of them were being resolved upstream, %d recognised as expired in a saturated ingress queue) but the server counted only %d shed/dropped datagrams and the kernel %d lost ones",
+				udpUnanswered, len(dispatched), expiredInQueue, udpServerDrops, kernelLoss), nil, nil,
+				map[string]any{"server_counters_delta": deltas(ctr0, ctr1), "kernel_before": k0, "kernel_after": k1,
+					"unanswered_never_seen_upstream": head(never, 16), "unanswered_seen_upstream": head(dispatched, 16), "expired_in_ingress_queue": head(expiredWitness, 16)})
 		}
 	}
 
@@ -630,6 +694,7 @@ func runScript(r *vlib.Run, sp scriptSpec, jm *jitterMon) {
 				"queries_judged":              judged,
 				"udp_unanswered":              udpUnanswered,
 				"udp_drops_counted":           udpServerDrops,
+				"udp_expired_in_ingress_queue": expiredInQueue,
 				"kernel_udp_loss":             kernelLoss,
 				"tcp_connections":             len(conns),
 				"tcp_connections_cut":         cutFresh + cutServed,
@@ -1027,7 +1092,7 @@ func (p *isoProbe) judge() {
 			}
 		}
 		ownBudgetLeft := queryTimeout - lat
-		if saysTimeout && ownBudgetLeft > 300*time.Millisecond+2*p.s.jm.max() {
+		if saysTimeout && ownBudgetLeft > 300*time.Millisecond+2*p.s.lateness() {
 			p.s.violation("expiry-delivered-to-other-client/"+f.Role,
 				fmt.Sprintf("%s (%s) was told SERVFAIL %q after only %.0f ms — %.0f ms before its own query timeout — while the leader of the same lookup expired (leader latency %.0f ms); a healthy upstream was available to it",
 					f.Role, f.Tr, timeoutEDEText, ms(lat), ms(ownBudgetLeft), ms(lLat)),
